@@ -314,6 +314,11 @@ def retry_signature(v):
             s += ' disableretry'
         if v.get('detail'):
             s += ' after=' + v['detail']
+        if v.get('detail') == 'closed':
+            # which redirections preceded the re-send made after Close (the scenario name lists the outcomes in order)
+            red = [t.split(':')[0] for t in str(v.get('scn', '')).split(' ')[1:] if t.split(':')[0] in ('MOVED', 'ASK', 'REDIRECT')]
+            if red:
+                s += ' redirects=' + ','.join(red)
         return s
     if what == 'retry-spin-after-ctx-or-close':
         return '%s kind=%s class=%s after=%s' % (what, v['kind'], v['class'], v['detail'])
